@@ -110,11 +110,27 @@ func specPow2D(n int32) bool {
 //@ loop 3 invariant loc == int32(len(ocodes)+len(strVal)-iter)
 //@ assigns Pass1.LOC, ocodeClient.Ocodes
 
+// specDataVal: the value a DW/DD operand hands to the emitter (C05: the operand's value; the emitter
+// keeps the low 16/32 bits): a number, or the address of a label that is already defined.
+// For DW only the low 16 bits matter (the emitter keeps those), so only they are compared.
+func specDataVal(env *Pass1, e ast.Exp) int32 {
+	switch op := e.(type) {
+	case *ast.NumberExp:
+		return int32(op.Value)
+	case *ast.ImmExp:
+		if f, ok := op.Factor.(*ast.IdentFactor); ok {
+			return env.SymTable[f.Value]
+		}
+	}
+	return 0
+}
+
 //@ func processDW
 //@ props C05 C03 C07
 //@ requires env != nil && env.Client != nil
 //@ loop 0 invariant[loc@C05+C03] loc == int32(2*len(ocodes))
 //@ loop 0 invariant[nodrop@C07] len(ocodes) == iter || vcLoggedError()
+//@ loop 0 invariant[vals@C05] vcLoggedError() || forall(0, iter, func(k int) bool { return ocodes[k]&0xFFFF == specDataVal(env, operands[k])&0xFFFF })
 //@ calls[nodrop@C07] emitCommand : len(arg2) == len(operands) || vcLoggedError()
 //@ assigns Pass1.LOC, ocodeClient.Ocodes
 
@@ -123,6 +139,7 @@ func specPow2D(n int32) bool {
 //@ requires env != nil && env.Client != nil
 //@ loop 0 invariant[loc@C05+C03] loc == int32(4*len(ocodes))
 //@ loop 0 invariant[nodrop@C07] len(ocodes) == iter || vcLoggedError()
+//@ loop 0 invariant[vals@C05] vcLoggedError() || forall(0, iter, func(k int) bool { return ocodes[k] == specDataVal(env, operands[k]) })
 //@ calls[nodrop@C07] emitCommand : len(arg2) == len(operands) || vcLoggedError()
 //@ assigns Pass1.LOC, ocodeClient.Ocodes
 
